@@ -44,7 +44,7 @@ ASSUMPTIONS = [
     "defined them",
     "vanilla flavour, generic hardware, no transpiler, Z-basis measurement only (vanilla decodes opcode 41 as mov)",
 ]
-PROBES = ["if-taken", "if-not-taken", "loop", "loop-start-step", "foreach", "enumerate", "loop_until", "loop_until-early-exit", "add-mod",
+PROBES = ["if-taken", "if-not-taken", "loop", "loop-start-step", "foreach", "enumerate", "loop_until", "loop_until-early-exit", "loop_until-cleanup-ran", "regfuture-first-read-postponed", "add-mod",
           "regfuture", "extra-flush-inserted", "value-crosses-flush", "nested-depth-3", "array-loop-init-path"]
 
 
@@ -105,7 +105,8 @@ def max_depth(stmts: List[tuple], d: int = 0) -> int:
 
 
 def compare_at_flush(node, conn, drv: SdkDriver, ev: Evaluator, qm: TraceQMem, where: str, sample: Any,
-                     alt: Optional[Evaluator] = None) -> None:
+                     alt: Optional[Evaluator] = None, postpone: Any = ()) -> None:
+    """`postpone`: register futures the host does not look at yet (their first read happens at a later flush)."""
     aid = conn.app_id
     # (i) gate applications
     if qm.log != ev.trace:
@@ -145,12 +146,23 @@ def compare_at_flush(node, conn, drv: SdkDriver, ev: Evaluator, qm: TraceQMem, w
             diag = "|stale-after-rewrite" if (prev != "?" and hv == prev and prev is not None) else ""
             raise Violation("state", "future-mismatch|host-visible" + diag,
                             {"future": name, "host": hv, "want": want, "value_at_previous_flush": prev, "where": where, **sample})
+    first_late = getattr(drv, "_postponed", set())
     for name, r in drv.regs.items():
+        if name in postpone:
+            first_late.add(name)
+            continue
         want = ev.regs.get(name)
         hv = r.value
+        if name in first_late and any(o is not r and str(o.reg) == str(r.reg) for o in drv.regs.values()):
+            # the register was handed to a newer register future in the meantime: what the old handle then shows is
+            # outside the property (it speaks of reads after each flush), so nothing is demanded here
+            continue
         if hv != want:
             in_body = any(x[0] == "measure" and x[2] == ("reg", name) for st in sample["program"] for b in st
                           if isinstance(b, list) and b and isinstance(b[0], tuple) for x in _walk(b))
+            if name in first_late and want is not None and not in_body:
+                raise Violation("state", "regfuture-mismatch|host-visible|first-read-after-a-later-flush",
+                                {"regfuture": name, "host": hv, "want": want, "reg": str(r.reg), "where": where, **sample})
             diag = "|never-measured" if want is None else ("|measured-in-body" if in_body else "")
             raise Violation("state", "regfuture-mismatch|host-visible" + diag, {"regfuture": name, "host": hv, "want": want,
                                                                          "reg": str(r.reg), "where": where, **sample})
@@ -162,6 +174,8 @@ def remember_flush(drv: SdkDriver, ev: Evaluator) -> None:
         a, i = ev.futs.get(name, (None, None))
         prev[name] = ev.arrays[a][i] if a is not None else None
     drv._prev_fut = prev  # type: ignore[attr-defined]
+    if not hasattr(drv, "_postponed"):
+        drv._postponed = set()  # type: ignore[attr-defined]
 
 
 def classify_ctrl_fault(e: BaseException) -> str:
@@ -223,6 +237,7 @@ def run(ch: Choices, opts: Dict[str, Any]) -> Dict[str, Any]:
 
     alt = Evaluator(alt_outcome, loop_until_strict=True)
     state = {"done": False, "segments": 0}
+    lazy = (not calm) and "regfuture-read-late" not in avoid and ch.flag(1, 3, "lazy")
 
     def host_task():
         conn = SimConnection("app", node, max_qubits=budget)
@@ -260,7 +275,19 @@ def run(ch: Choices, opts: Dict[str, Any]) -> Dict[str, Any]:
                                         {"error": str(e)[:400], "subroutine": _last_sub(conn), **sample})
                     yield y
                 state["segments"] += 1
-                compare_at_flush(node, conn, drv, ev, qm, f"flush#{state['segments']}", sample, alt)
+                # a lazy host does not look at every register future right after its own flush
+                postpone = set()
+                if lazy and i < len(prog) - 1:
+                    seen = getattr(drv, "_seen_regs", set())
+                    for name in drv.regs:
+                        if name not in seen and ch.flag(1, 2, "postpone"):
+                            postpone.add(name)
+                    drv._seen_regs = seen | (set(drv.regs) - postpone)  # type: ignore[attr-defined]
+                    if postpone:
+                        bump(probes, "regfuture-first-read-postponed")
+                if not hasattr(drv, "_postponed"):
+                    drv._postponed = set()  # type: ignore[attr-defined]
+                compare_at_flush(node, conn, drv, ev, qm, f"flush#{state['segments']}", sample, alt, postpone)
                 remember_flush(drv, ev)
             yield None
         conn.close()
